@@ -123,10 +123,19 @@ func (e *Engine) verifyLemma(name string, c *Contract) (rep *FuncReport) {
 			lb = term(e.evalSpec(fx, env))
 		}
 		m := map[string]*Term{iv.Name: mkArith("-", iv, mkInt(1))}
-		ih := mkImplies(mkCmp(">", iv, lb), mkImplies(subst(mkAnd(reqs...), m), subst(mkAnd(enss...), m)))
-		st.assume(ih)
+		ih := mkImplies(subst(mkAnd(reqs...), m), subst(mkAnd(enss...), m))
+		// two cases, stated separately (solvers do not find the split on the induction variable by themselves):
+		// at or below the bound there is no hypothesis; above it the lemma at ind-1 is available
+		base := st.clone()
+		base.assume(mkCmp("<=", iv, lb))
 		for j, g := range enss {
-			e.assert(st, g, fmt.Sprintf("induction#%d", j), c.Where, nil)
+			e.assert(base, g, fmt.Sprintf("induction#%d/base", j), c.Where, nil)
+		}
+		step := st.clone()
+		step.assume(mkCmp(">", iv, lb))
+		step.assume(ih)
+		for j, g := range enss {
+			e.assert(step, g, fmt.Sprintf("induction#%d/step", j), c.Where, nil)
 		}
 	}
 	rep.Status = "checked"
